@@ -4,6 +4,7 @@
   and separation) is abstract; the KD-tree is assumed to count it exactly (trusted base).
 -/
 import YawVerif.Lemmas.PairCount
+import YawVerif.Lemmas.Grid
 
 namespace Yaw.C01
 open Yaw Yaw.PC
@@ -166,6 +167,38 @@ theorem count_pairs_eq_spec_partial (auto : Bool) (N : Nat) (L : Nat → List Na
             rw [hiff']; simp [hlt]
           have : j < i := by omega
           simp [hnot, this]
+
+/-- `get_ang_bins` discharges the grid hypotheses: the merged grid `np.sort(np.unique(fine edges ++ all limits))` is
+    strictly increasing and contains every limit (`Grid.merged_sorted`, `Grid.mem_merged`), hence — for ANY fine edges, any
+    number of scales, overlapping or not — counting on the merged grid and summing between the nearest edges gives, per
+    scale, exactly the pairs in (θ_min, θ_max].  (Exact arithmetic: the logarithm in which the code sorts is a strictly
+    monotone bijection; in floats `10 ** log10 x` may miss `x` by an ulp, which is what the nearest-edge search absorbs.) -/
+theorem tree_pair_count_exact_merged (P : Pairs) (fine : List Rat) (lims : List (Rat × Rat))
+    (hord : ∀ l ∈ lims, l.1 ≤ l.2) :
+    let g := Grid.merged (fine ++ lims.flatMap fun l => [l.1, l.2])
+    treePairCount P (Grid.edge g) g.length none lims = lims.map fun l => cnt P l.1 l.2 := by
+  intro g
+  have hs : g.Pairwise (· < ·) := Grid.merged_sorted _
+  apply tree_pair_count_exact P (Grid.edge g) g.length
+    (fun i j hij hj => Grid.edge_strict g hs i j hij hj) (fun k => Grid.edge_step g hs k)
+  intro l hl
+  have hmem : ∀ z, (z = l.1 ∨ z = l.2) → z ∈ g := by
+    intro z hz
+    rw [Grid.mem_merged, List.mem_append]
+    right
+    rw [List.mem_flatMap]
+    exact ⟨l, hl, by rcases hz with rfl | rfl <;> simp⟩
+  obtain ⟨a, ha, ea⟩ := Grid.edge_of_mem g l.1 (hmem _ (Or.inl rfl))
+  obtain ⟨b, hb, eb⟩ := Grid.edge_of_mem g l.2 (hmem _ (Or.inr rfl))
+  refine ⟨a, b, ?_, hb, ea.symm, eb.symm⟩
+  by_contra hab
+  have hlt : Grid.edge g b < Grid.edge g a := Grid.edge_strict g hs b a (by omega) ha
+  rw [ea, eb] at hlt
+  exact absurd (hord l hl) (not_le.mpr hlt)
+
+/-- non-vacuity: two overlapping scales on a grid merged from three fine edges -/
+example : Grid.merged ([1, 4, 16] ++ ([((2 : Rat), (8 : Rat)), (4, 32)].flatMap fun l => [l.1, l.2])) = [1, 2, 4, 8, 16, 32] := by
+  decide
 
 /-- the hand-modelled glue around the generated kernels is unchanged -/
 theorem glue_pinned :
